@@ -270,11 +270,18 @@ def run_kernel(case, tensors, flow, counts=None, abort_at=None, expect=None, hoo
     for nm, idx in ops:
         t = tens[nm]
         want = [i for i in order if i in idx]
-        if want != list(idx):
+        if want != list(idx) or flow.get("always_swizzle"):
+            # (generated kernels ask for the concordant order unconditionally, also when it is the order the
+            #  tensor already has)
             t = t.swizzleRanks(want)
         cur[nm] = (t.getRoot(), want)
     zr = [i for i in order if i in out]
-    z = Tensor(rank_ids=zr, shape=[shapes[i] for i in zr])
+    zproto = tensors.get("__Z__") if flow.get("always_swizzle") else None
+    if zproto is not None and "tile" in flow and not flow.get("tile") and len(zr) >= 1:
+        # the program declares its (empty) output once and takes a copy in the loop order of each execution
+        z = zproto.swizzleRanks(zr)
+    else:
+        z = Tensor(rank_ids=zr, shape=[shapes[i] for i in zr])
     zroot = z.getRoot()
     cnt = counts if counts is not None else Counts()
     lazies = {}     # a co-iteration of the same fibers is built once and re-iterated (loop-invariant hoisting)
